@@ -16,7 +16,12 @@ import sys
 import os
 
 sys.path.insert(0, os.path.dirname(os.path.dirname(os.path.abspath(__file__))))
-from iglib import read_src, strip_c_comments, function_body, lean_str, LEAN, write_if_changed
+import iglib
+from iglib import strip_c_comments, function_body, lean_str, LEAN, write_if_changed
+
+
+def read_src(rel):
+    return iglib.read_src(rel)
 
 DB = "src/interrogatedb/"
 
@@ -508,20 +513,19 @@ def render():
              "/-! REGENERATED on every run by tools/extract/dbschema.py from /repo/src/interrogatedb.",
              "Do not edit: the committed copy is what the pinned tree yields. -/",
              "namespace IgVerif.Gen", "open IgVerif", ""]
+    failed = None
     try:
         r = extract()
     except Exception as e:  # extraction failure is a reported break, never silence
-        lines += ["def dbSchemaExtractionFailed : Bool := true",
-                  "def dbSchemaExtractionError : String := %s" % lean_str("%s: %s" % (type(e).__name__, e)),
-                  "def outSchema : Schema := ⟨[], [], [], [], [], []⟩", "def inSchema : Schema := ⟨[], [], [], [], [], []⟩",
-                  "def indexMembers : List (String × List (String × String)) := []",
-                  "def remapMembers : List (String × List String) := []",
-                  "def serialisedMembers : List (String × List String) := []",
-                  "def copiedMembers : List (String × List String) := []",
-                  "def flagMasks : List (String × Nat) := []",
-                  "", "end IgVerif.Gen", ""]
-        return "\n".join(lines), str(e)
-    lines += ["def dbSchemaExtractionFailed : Bool := false", 'def dbSchemaExtractionError : String := ""', ""]
+        failed = "%s: %s" % (type(e).__name__, e)
+        # keep the models runnable on the layout of /repo's HEAD so that the search for a failing input can proceed
+        iglib.PINNED = True
+        try:
+            r = extract()
+        finally:
+            iglib.PINNED = False
+    lines += ["def dbSchemaExtractionFailed : Bool := %s" % ("true" if failed else "false"),
+              "def dbSchemaExtractionError : String := %s" % lean_str(failed or ""), ""]
     for view, attr in (("out", "out"), ("in", "inp")):
         for kind, ci in r["classes"].items():
             fs = getattr(ci, attr)
@@ -582,7 +586,7 @@ def render():
     lines.append(",\n".join("  (%s, %d)" % (lean_str(k), v) for k, v in fm))
     lines.append("]")
     lines += ["", "end IgVerif.Gen", ""]
-    return "\n".join(lines), None
+    return "\n".join(lines), failed
 
 
 def main():
